@@ -46,14 +46,16 @@ def _fresh(inputs):
 
 # ------------------------------------------------------------------------------------------------ C10.min_error
 def min_error_cases(tier, seed):
-    for d, keys in en.ket_subsets(tier):
+    for idx, (d, keys) in enumerate(en.ket_subsets(tier)):
         n = len(keys)
         full = tier == "thorough" and n <= 3
         for prior in en.prior_keys(n):
             forms = en.KET_FORMS if (full or prior == "g0") else ("col",)
+            if tier == "quick" and n == 3 and prior == "g0":
+                forms = ("col", "1d" if idx % 2 == 0 else "dm")  # the other form of each triple is in the thorough tier
             for form in forms:
                 yield {"d": d, "keys": keys, "kind": "ket", "prior": prior, "form": form}
-        if n <= 3:
+        if n == 2 or (n == 3 and tier == "thorough"):
             yield {"d": d, "keys": keys, "kind": "ket", "prior": "none", "form": "1d"}
     for d, keys in en.mixed_subsets(tier):
         for prior in en.prior_keys(len(keys)):
@@ -250,13 +252,14 @@ def invariance_cases(tier, seed):
     for d, keys in core_subsets(tier):
         n = len(keys)
         ukeys = [k for k in catalog.unitaries(d).keys() if k != "I"]
+        few = [k for k in ukeys if k in ("F", "ph", "X", "g0")]
         for prior in ("ramp", "g0"):
             for strategy in ("min_error", "unambiguous"):
                 for pd in ("primal", "dual"):
                     for form in (("col", "dm") if strategy == "min_error" else ("col",)):
-                        if form == "dm" and not (prior == "g0" and pd == "dual") and tier == "quick":
+                        if form == "dm" and tier == "quick":
                             continue
-                        for uk in ukeys:
+                        for uk in (few if (strategy == "unambiguous" and tier == "quick") else ukeys):
                             yield {"d": d, "keys": keys, "kind": "ket", "prior": prior, "form": form, "strategy": strategy, "pd": pd, "U": uk}
                     for perm in itertools.permutations(range(n)):
                         if list(perm) != list(range(n)):
@@ -331,7 +334,7 @@ def isdist_cases(tier, seed):
         # complete orthonormal bases and their sub-bases (the only perfectly distinguishable catalogue sets of size d)
         for base in ("e", "f"):
             names = [f"{base}{k}" for k in range(d)]
-            if all(nm in en.ket_names(d) for nm in names) and d > 3 - (tier == "thorough"):
+            if all(nm in en.ket_names(d) for nm in names) and d == 4:  # for d <= 3 these are ordinary subsets above
                 yield {"d": d, "keys": names, "kind": "ket", "prior": "none", "form": "col"}
     for d, keys in en.mixed_subsets(tier):
         if len(keys) == 2:
